@@ -197,6 +197,9 @@ func (*G1) FromAffineX(x *BaseFieldElementG1, b bool) (*PointG1, error) {
 	if err != nil {
 		panic(err) // should never happen
 	}
+	if !p.IsTorsionFree() {
+		return nil, curves.ErrSubGroupMembership.WithStackFrame()
+	}
 	if y.IsOdd() != b {
 		return p.Neg(), nil
 	} else {
